@@ -634,8 +634,14 @@ func diskStoreRun(a runArgs, sink *CaseSink) error {
 		in := &mvInput{Mode: "mvcc", Cmp: top.Intn(2), Delta: delta}
 		e := mvGenerate(top, in, 20+top.Intn(30), false)
 		g := &mvGen{r: top, e: e, nkeys: 8, ops: in.Ops}
+		// every other database has long items, so that data shards are larger than the manifests and a
+		// file-size limit can hit one shard's last flush while every other file completes
+		tail := 30
+		if dbi%2 == 0 {
+			tail = 700
+		}
 		for i := 0; i < 25; i++ {
-			g.do(mvOp{Op: "put", W: 0, Bs: b2i(append(g.item(top.Intn(40)), bytes.Repeat([]byte{'x'}, top.Intn(30))...))})
+			g.do(mvOp{Op: "put", W: 0, Bs: b2i(append(g.item(top.Intn(40)), bytes.Repeat([]byte{'x'}, top.Intn(tail))...))})
 		}
 		g.do(mvOp{Op: "snap"})
 		in.Ops = g.ops
@@ -718,13 +724,28 @@ func diskStoreRun(a runArgs, sink *CaseSink) error {
 		}
 		// (ii) write budgets: RLIMIT_FSIZE in a child; success must mean restorable
 		total := 0
+		sizes := map[int]bool{}
 		filepath.Walk(dir, func(p string, info os.FileInfo, err error) error {
-			if err == nil && !info.IsDir() && int(info.Size()) > total {
-				total = int(info.Size())
+			if err == nil && !info.IsDir() {
+				sizes[int(info.Size())] = true
+				if int(info.Size()) > total {
+					total = int(info.Size())
+				}
 			}
 			return nil
 		})
-		var budgets []int64
+		var budgets, directed []int64
+		// directed: one byte short of each file's final size — the failure then surfaces only in the
+		// last flush (Close) of the files of that size, all smaller files complete
+		for sz := range sizes {
+			if sz > 0 {
+				directed = append(directed, int64(sz-1))
+			}
+		}
+		sort.Slice(directed, func(i, j int) bool { return directed[i] > directed[j] })
+		if len(directed) > 10 {
+			directed = directed[:10]
+		}
 		for b := 0; b <= total+block; b += block {
 			budgets = append(budgets, int64(b))
 		}
@@ -735,6 +756,7 @@ func diskStoreRun(a runArgs, sink *CaseSink) error {
 			top.Shuffle(len(budgets), func(i, j int) { budgets[i], budgets[j] = budgets[j], budgets[i] })
 			budgets = budgets[:30]
 		}
+		budgets = append(directed, budgets...)
 		var wg sync.WaitGroup
 		var mu sync.Mutex
 		sem := make(chan struct{}, 12)
